@@ -425,7 +425,14 @@ fn execute(sc: &Scenario, osim: SimOs, rep: &mut RunReport) {
                     }
                 }
                 Err((kind, msg)) => {
-                    if !error_struct_matches(&value, *kind, msg) {
+                    // EINTR is transient by nature: reading again is as legitimate as reporting it
+                    // (std itself retries it in most read loops); the value is then the data of the
+                    // last read of this invocation, which must have succeeded
+                    let retried_eintr = want_op == "stdin_read_line"
+                        && *kind == std::io::ErrorKind::Interrupted as i64
+                        && entries.len() > 1
+                        && matches!(entries.last().map(|e| &e.result), Some(CallResult::Ok(r)) if success_ok(&value, r));
+                    if !error_struct_matches(&value, *kind, msg) && !retried_eintr {
                         rep.violation = Some((
                             "wrong-result".into(),
                             format!("call {ci} `{text}`: the documented operation {want_op}{want_args:?} fails with kind {kind} `{msg}` on this file tree, but the function returned {}", cvar(&value)),
@@ -1316,6 +1323,8 @@ pub const MODULE_STATES: &[(&str, &str)] = &[
     // refers to a name of the importer (the imported file is checked on top of the importer's scope
     // AT THE POSITION of the import): no claim about its names unless the form defines `outer_x`
     ("uses-importer-name", "y := outer_x + 1"),
+    // all its names are constants, and it writes a cell of the importer (no claim unless the form declares `outer_c`)
+    ("effect-on-importer", "a := 1; outer_c += 5"),
     // every statement form of docs/statements.md in one imported file (value, type and default
     // arms of match, if-set, while-set, for, loop, destructuring, struct, module, type filter, slice)
     ("all-constructs", "v := match 5 { x: float => 1, 5, 6 => 2, => 3, }; w := if y: int = v { y } else { 0 }; (p, q) := (1, \"s\"); st := struct{a := p, b := q}; m := mod { k := 1 }; fn1 := (x: int|string) -> int { return match x { 1 => 10, \"a\", \"b\" => 20, i: int => i, s: string => 0, } }; acc := mut 0; for e in [1, 2, 3]~ { acc += e }; i := mut 0; loop { i += 1; if *i > 2 { break } }; while *i > 0 { i -= 1 }; n := mut 3; while t: int = *n { n -= 1; if t < 2 { break } }; fl := ([1, \"a\", 2.5]~ ? int) $]; sl := [1, 2, 3][1:]"),
@@ -1379,8 +1388,22 @@ pub const IMPORT_FORMS: &[&str] = &[
     "import \"p \"",
     "m := import \" p\"; m",
     "m := import \"\\x70\"; m",
+    // (32) `~` is an ordinary character of a file name (the file is stored as `~p` too)
+    "m := import \"~p\"; m",
+    // (33, 34) a statement that follows an import on the next line, without `;`, and starts with
+    // letters that could continue the import statement (`as ...`)
+    "m := import \"p\"\nassume := 3; (m.a, assume)",
+    "import \"p\"\nascii := 4; ascii",
+    // (35) what the file does to a cell of the importer happens; (36) inside a loop of the importer
+    "outer_c := mut 0; m := import \"p\"; (m.a, *outer_c)",
+    "outer_c := mut 0; n := mut 0; while *n < 3 { n += 1; m := import \"p\" }; *outer_c",
 ];
 const ESCAPED_P_FORM: usize = 31;
+const TILDE_FORM: usize = 32;
+/// forms judged like `m := import "p"; m` (another spelling of the path)
+fn plain_spelling(form: usize) -> bool {
+    form == LONG_DOTTED_FORM || form == ESCAPED_P_FORM || form == TILDE_FORM
+}
 /// `m := import "./././ ... /p"; m` with 140 `./` components (282 bytes)
 const LONG_DOTTED_IMPORT: &str = "m := import \"./././././././././././././././././././././././././././././././././././././././././././././././././././././././././././././././././././././././././././././././././././././././././././././././././././././././././././././././././././././././././././././././././././././././././././././././p\"; m";
 const LONG_DOTTED_FORM: usize = 28;
@@ -1400,6 +1423,10 @@ fn expected_value(form: usize, p: &str, q: &str) -> Option<&'static str> {
         (21, "uses-importer-name", _) => Some("9"),
         (22, "uses-importer-name", _) => Some("(4,6)"),
         (26, "nbsp-literal", _) => Some("(true,5)"),
+        (33, "valid", _) => Some("(1,3)"),
+        (34, "valid", _) => Some("4"),
+        (35, "effect-on-importer", _) => Some("(1,5)"),
+        (36, "effect-on-importer", _) => Some("15"),
         (27, "case-names", _) => Some("(1,2,3,4,5)"),
         _ => None,
     }
@@ -1440,7 +1467,8 @@ pub fn run_import_case(case: &ImportCase, key_seed: u64) -> RunReport {
         let mut rep = RunReport::default();
         let mut o = SimOs::new();
         if let Some(n) = module_node(case.p_state) {
-            o.nodes.insert("p".into(), n);
+            o.nodes.insert("p".into(), n.clone());
+            o.nodes.insert("~p".into(), n);
         }
         if let Some(n) = module_node(case.q_state) {
             o.nodes.insert("q".into(), n);
@@ -1505,10 +1533,10 @@ pub fn run_import_case(case: &ImportCase, key_seed: u64) -> RunReport {
                 // a readable, well-formed file imported without any fault: the import must succeed
                 let q_ok = MODULE_STATES[case.p_state].0 != "nested" || module_names(MODULE_STATES[case.q_state].0).is_some();
                 // (forms 6 and 8 use the members a / s / f, which only the "valid" file declares)
-                let uses_members = matches!(case.form, 6 | 8);
+                let uses_members = matches!(case.form, 6 | 8 | 33);
                 if case.fault.is_none()
                     && case.form != 7
-                    && (case.form <= LAST_PLAIN_FORM || case.form == LONG_DOTTED_FORM || case.form == ESCAPED_P_FORM)
+                    && (case.form <= LAST_PLAIN_FORM || plain_spelling(case.form) || matches!(case.form, 33 | 34))
                     && module_names(MODULE_STATES[case.p_state].0).is_some()
                     && q_ok
                     && (!uses_members || MODULE_STATES[case.p_state].0 == "valid")
@@ -1563,7 +1591,7 @@ pub fn run_import_case(case: &ImportCase, key_seed: u64) -> RunReport {
                 rep.events += 1;
                 match r {
                     Err(p) => rep.violation = Some(("exec-panic".into(), format!("executing accepted {desc} panicked: {p}"))),
-                    Ok(Ok(v)) if case.fault.is_none() && (case.form <= 1 || case.form == 9 || case.form == LONG_DOTTED_FORM || case.form == ESCAPED_P_FORM) && module_names(MODULE_STATES[case.p_state].0).is_some() => {
+                    Ok(Ok(v)) if case.fault.is_none() && (case.form <= 1 || case.form == 9 || plain_spelling(case.form)) && module_names(MODULE_STATES[case.p_state].0).is_some() => {
                         let module = match (&v, case.form) {
                             (Variable::Tuple(t), 9) => {
                                 // the importer's own names are untouched
